@@ -428,3 +428,291 @@ func runDirfsHLCase(c fsCase) []Step {
 		Tags: tl,
 	}}
 }
+
+// ---------------------------------------------------------------------------------------------
+// kind dirfs-reopen: RE-OPEN histories.  A work directory is used more than once: what one DirFS value put there
+// is what the next DirFS value over the same directory must show.  The case populates the directory through one
+// value (session 1), then opens a NEW DirFS over it — named by its real path, through a symbolic link to it, with
+// a trailing slash, as dir/., through x/.., relative to another working directory, relative through the link —
+// and observes everything: ReadDir of every directory, the disk view, ReadFile / Stat of every file name,
+// Readlink / Lstat / Stat / ReadFile of every link name, Stat / Lstat of every directory; then goes on operating
+// through the new value (and re-opens again in a third of the cases).  The Lean models are carried over the
+// re-open (fs.dirre): the directory's content is the file system's.  Envelope: that of dirfs-hl plus symbolic links
+// with relative dot-free targets at three names that no other name passes through; permissions are the nine
+// permission bits only (the constructor's walk restores mode.Perm()), no xattrs / chown (kept in memory only);
+// after a re-open Chmod goes to directories only (the names of one disk inode come back as separate overlay nodes).
+
+var reDirs = []string{".", "a", "a/b", "c", "a/b/c", "d"}
+var reLinks = []string{"l", "a/l", "c/k"}
+var reTargets = []string{"a", "f", "a/b", "b", "g", "x", "c/f", "l", "h1", "b/g"}
+var reHows = []string{"link", "link", "link", "link", "link", "rellink", "rellink", "linkslash", "real", "real", "real",
+	"slash", "slash", "dot", "dot", "dotdot", "dotdot", "rel", "rel", "reldot"}
+
+func genDirfsReopenCase(r *Rng) fsCase {
+	c := fsCase{Backend: "dirfs", Kind: "dirfs-reopen"}
+	c.Ops = append(c.Ops, fsOp{K: "mkdirall", P: "a/b", N: 0o755})
+	if r.Chance(80) {
+		c.Ops = append(c.Ops, fsOp{K: "mkdir", P: "c", N: 0o755})
+	}
+	light := func() {
+		c.Ops = append(c.Ops, fsOp{K: "hl", D: strings.Join(hlNames, ",")})
+		for _, p := range hlNames {
+			c.Ops = append(c.Ops, fsOp{K: "readfile", P: p}, fsOp{K: "stat", P: p})
+		}
+		for _, p := range reLinks {
+			c.Ops = append(c.Ops, fsOp{K: "readlink", P: p})
+		}
+		c.Ops = append(c.Ops, fsOp{K: "readdir", P: Pick(r, reDirs)})
+	}
+	full := func() {
+		for _, d := range reDirs {
+			c.Ops = append(c.Ops, fsOp{K: "readdir", P: d})
+		}
+		c.Ops = append(c.Ops, fsOp{K: "hl", D: strings.Join(hlNames, ",")})
+		for _, p := range hlNames {
+			c.Ops = append(c.Ops, fsOp{K: "readfile", P: p}, fsOp{K: "stat", P: p})
+		}
+		for _, p := range reLinks {
+			c.Ops = append(c.Ops, fsOp{K: "readlink", P: p}, fsOp{K: "lstat", P: p}, fsOp{K: "stat", P: p}, fsOp{K: "readfile", P: p})
+		}
+		for _, d := range reDirs {
+			c.Ops = append(c.Ops, fsOp{K: "stat", P: d}, fsOp{K: "lstat", P: d})
+		}
+	}
+	group := func(session int) {
+		p := Pick(r, hlNames)
+		switch k := r.Intn(100); {
+		case k < 22:
+			c.Ops = append(c.Ops, fsOp{K: "writefile", P: p, D: Pick(r, fsData), N: Pick(r, []int{0o644, 0o600, 0o755})})
+		case k < 36:
+			c.Ops = append(c.Ops, fsOp{K: "link", P: Pick(r, hlNames), Q: Pick(r, append(append([]string{}, hlNames...), "a", "nope"))})
+		case k < 50:
+			c.Ops = append(c.Ops, fsOp{K: "symlink", P: Pick(r, reLinks), Q: Pick(r, reTargets)})
+		case k < 62:
+			h := countOpens(c.Ops)
+			c.Ops = append(c.Ops, fsOp{K: "open", P: p, M: Pick(r, hlWriteFlags), N: Pick(r, []int{0o644, 0o600})})
+			for j := r.Range(0, 2); j > 0; j-- {
+				c.Ops = append(c.Ops, fsOp{K: "write", H: h, D: Pick(r, fsData)})
+			}
+			c.Ops = append(c.Ops, fsOp{K: "close", H: h})
+		case k < 67:
+			h := countOpens(c.Ops)
+			c.Ops = append(c.Ops, fsOp{K: "create", P: p})
+			if r.Bool() {
+				c.Ops = append(c.Ops, fsOp{K: "write", H: h, D: Pick(r, fsData)})
+			}
+			c.Ops = append(c.Ops, fsOp{K: "close", H: h})
+		case k < 71:
+			h := countOpens(c.Ops)
+			c.Ops = append(c.Ops, fsOp{K: "open", P: p, M: os.O_RDONLY, N: 0o644}, fsOp{K: "read", H: h, N: 100}, fsOp{K: "close", H: h})
+		case k < 82:
+			c.Ops = append(c.Ops, fsOp{K: "remove", P: Pick(r, append(append([]string{}, hlNames...), reLinks...))})
+		case k < 90:
+			if session == 0 && r.Bool() {
+				c.Ops = append(c.Ops, fsOp{K: "chmod", P: p, N: Pick(r, []int{0o644, 0o600, 0o755})})
+			} else {
+				c.Ops = append(c.Ops, fsOp{K: "chmod", P: Pick(r, []string{"a", "a/b", "c", "d"}), N: Pick(r, []int{0o755, 0o700, 0o750})})
+			}
+		case k < 96:
+			c.Ops = append(c.Ops, fsOp{K: "mkdir", P: Pick(r, []string{"c", "a/b/c", "d", "a"}), N: Pick(r, []int{0o755, 0o700})})
+		default:
+			c.Ops = append(c.Ops, fsOp{K: "readdir", P: Pick(r, reDirs)})
+		}
+	}
+	// session 1: populate (most directories get a file with a second name and a link early)
+	if r.Chance(70) {
+		old := Pick(r, hlFiles)
+		c.Ops = append(c.Ops, fsOp{K: "writefile", P: old, D: Pick(r, fsData), N: 0o644}, fsOp{K: "link", P: Pick(r, hlExtra), Q: old})
+	}
+	if r.Chance(70) {
+		c.Ops = append(c.Ops, fsOp{K: "symlink", P: Pick(r, reLinks), Q: Pick(r, reTargets)})
+	}
+	for g := r.Range(3, 8); g > 0; g-- {
+		group(0)
+		if r.Chance(30) {
+			light()
+		}
+	}
+	full()
+	sessions := 1
+	if r.Chance(35) {
+		sessions = 2
+	}
+	for s := 1; s <= sessions; s++ {
+		c.Ops = append(c.Ops, fsOp{K: "reopen", P: Pick(r, reHows), N: r.Intn(2)})
+		full()
+		for g := r.Range(1, 5); g > 0; g-- {
+			group(s)
+			light()
+		}
+		full()
+	}
+	return c
+}
+
+// reopenDirFS: a new DirFS value over the directory of the world, named as `how` says; the working directory of the
+// process is moved for the relative spellings (and stays there: a relative base is resolved on every call)
+func (w *fsWorld) reopenDirFS(how string, caseOpt bool) string {
+	parent := filepath.Dir(w.dir)
+	link := filepath.Join(parent, "cur")
+	if _, err := os.Lstat(link); err != nil {
+		if err := os.Symlink("root", link); err != nil {
+			return "EHARNESS"
+		}
+	}
+	_ = os.MkdirAll(filepath.Join(parent, "x"), 0o755)
+	dir := w.dir
+	switch how {
+	case "real":
+	case "link":
+		dir = link
+	case "linkslash":
+		dir = link + "/"
+	case "slash":
+		dir = w.dir + "/"
+	case "dot":
+		dir = w.dir + "/."
+	case "dotdot":
+		dir = parent + "/x/../root"
+	case "rel":
+		if os.Chdir(parent) != nil {
+			return "EHARNESS"
+		}
+		dir = "root"
+	case "reldot":
+		if os.Chdir(filepath.Join(parent, "x")) != nil {
+			return "EHARNESS"
+		}
+		dir = "../root"
+	case "rellink":
+		if os.Chdir(parent) != nil {
+			return "EHARNESS"
+		}
+		dir = "cur"
+	default:
+		return "EHARNESS"
+	}
+	var f apkfs.FullFS
+	if caseOpt {
+		f = apkfs.DirFS(dir, apkfs.DirFSWithCaseSensitive(true))
+	} else {
+		f = apkfs.DirFS(dir)
+	}
+	if f == nil {
+		return "NIL"
+	}
+	w.base, w.cur = f, f
+	return "ok"
+}
+
+func reStat(fi fs.FileInfo, withName, noSize bool) string {
+	d := "0"
+	if fi.IsDir() {
+		d = "1"
+	}
+	size := fi.Size()
+	if fi.IsDir() || noSize {
+		size = 0
+	}
+	s := fmt.Sprintf("%d/%d/%s", size, uint32(fi.Mode()), d)
+	if withName {
+		s = hx(fi.Name()) + "/" + s
+	}
+	return s
+}
+
+func runDirfsReopenCase(c fsCase) []Step {
+	cwd, cwdErr := os.Getwd()
+	// umask 0: the overlay keeps the permission bits a caller asked for, the host creates with perm &^ umask; a
+	// re-opened overlay has the host's bits.  The comparison is made where the two are the same.
+	old := syscall.Umask(0)
+	w := newWorld("dirfs")
+	defer func() {
+		if cwdErr == nil {
+			_ = os.Chdir(cwd)
+		}
+		syscall.Umask(old)
+		os.RemoveAll(filepath.Dir(w.dir))
+	}()
+	toks := make([]string, 0, len(c.Ops))
+	outs := make([]string, 0, len(c.Ops))
+	var descs []string
+	tags := map[string]struct{}{"backend:dirfs": {}, "kind:dirfs-reopen": {}}
+	session := 0
+	dead := false
+	for _, o := range c.Ops {
+		f := w.base
+		toks = append(toks, o.token())
+		var r string
+		switch {
+		case dead:
+			r = "NIL"
+		case o.K == "reopen":
+			if cwdErr == nil {
+				_ = os.Chdir(cwd)
+			}
+			r = w.reopenDirFS(o.P, o.N == 1)
+			dead = r != "ok"
+			session++
+			tags["reopen:"+o.P] = struct{}{}
+		case o.K == "hl":
+			r = hlDiskView(w.dir, strings.Split(o.D, ","))
+		case o.K == "stat" || o.K == "lstat":
+			var fi fs.FileInfo
+			var err error
+			if o.K == "stat" {
+				fi, err = f.Stat(o.P)
+			} else {
+				fi, err = f.Lstat(o.P)
+			}
+			if err != nil {
+				r = "E"
+			} else {
+				r = "s" + reStat(fi, false, o.K == "lstat")
+			}
+		case o.K == "readdir":
+			if des, err := f.ReadDir(o.P); err != nil {
+				r = "E"
+			} else {
+				var parts []string
+				for _, de := range des {
+					fi, err := de.Info()
+					if err != nil {
+						parts = append(parts, hx(de.Name())+"!")
+						continue
+					}
+					parts = append(parts, reStat(fi, true, fi.Mode()&fs.ModeSymlink != 0))
+				}
+				r = "e" + strings.Join(parts, "+")
+			}
+		default:
+			r = w.apply(o)
+			if len(r) > 0 && r[0] >= 'A' && r[0] <= 'Z' {
+				r = "E"
+			}
+		}
+		outs = append(outs, r)
+		probe := o.K == "hl" || o.K == "readfile" || o.K == "stat" || o.K == "lstat" || o.K == "readlink" || o.K == "readdir"
+		if !probe || (session > 0 && r != "E" && len(descs) < 400) {
+			descs = append(descs, o.desc()+"="+r)
+		}
+		if session > 0 && r != "E" {
+			tags[fmt.Sprintf("re%d:%s", min(session, 2), o.K)] = struct{}{}
+		}
+	}
+	var tl []string
+	for t := range tags {
+		tl = append(tl, t)
+	}
+	sort.Strings(tl)
+	desc := "dirfs (re-open): " + strings.Join(descs, "; ")
+	if len(desc) > 8000 {
+		desc = desc[:8000] + "…"
+	}
+	return []Step{{
+		Line: "fs.dirre\t" + strings.Join(toks, "\t"),
+		Go:   strings.Join(outs, ";"),
+		Desc: desc,
+		Tags: tl,
+	}}
+}
